@@ -42,6 +42,13 @@ Theorem C01_reported_eq_yielded_and_progression : forall c l, valid c ->
 Proof. exact code_reported_eq_yielded. Qed.
 Print Assumptions C01_reported_eq_yielded_and_progression.
 
+(* closed form for the number of splits *)
+Theorem C01_n_splits_formula : forall c, valid c -> feasible c = true ->
+  window_n_splits c = (n c - fhmax c - first_cutoff c + step c - 1) / step c /\
+  1 <= window_n_splits c.
+Proof. exact n_splits_formula. Qed.
+Print Assumptions C01_n_splits_formula.
+
 (* a configuration is rejected exactly when a window does not fit *)
 Theorem C01_rejects_iff_infeasible : forall c, valid c ->
   (code_sliding c = Err <->
